@@ -113,6 +113,16 @@ fn load_interface_from_paths(
     )))
 }
 
+fn reject_reserved_package_name(package: &str) -> Result<(), CompilationError> {
+    if package == "Builtin" {
+        return Err(compile_error(
+            "Builtin is the compiler's builtin package; a project package cannot have that name"
+                .to_string(),
+        ));
+    }
+    Ok(())
+}
+
 fn read_source_files(
     package: &str,
     input_files: &[PathBuf],
@@ -184,6 +194,7 @@ fn typecheck_single_package(
 }
 
 pub fn check_package(opts: PackageInputs) -> Result<InterfaceUnit, CompilationError> {
+    reject_reserved_package_name(&opts.package)?;
     let (files, imports, _sources) = read_source_files(&opts.package, &opts.input_files)?;
 
     let mut deps: Vec<String> = imports.into_iter().collect();
@@ -217,6 +228,7 @@ pub fn check_package(opts: PackageInputs) -> Result<InterfaceUnit, CompilationEr
 }
 
 pub fn build_package(opts: PackageInputs) -> Result<CoreUnit, CompilationError> {
+    reject_reserved_package_name(&opts.package)?;
     let (files, imports, sources) = read_source_files(&opts.package, &opts.input_files)?;
 
     let mut deps: Vec<String> = imports.into_iter().collect();
